@@ -1,6 +1,6 @@
 """C09 -- spatial filters: contracts on Motl.remove_out_of_bounds_particles, Motl.adapt_to_trimming (deductive, generic row) and
-Motl.clean_by_distance_to_points (arbitrary group x arbitrary reference point, ball-query contract); clean_by_tomo_mask is decided by the
-bounded stand-in only."""
+Motl.clean_by_distance_to_points (arbitrary group x arbitrary reference point, ball-query contract) and Motl.clean_by_tomo_mask (one arbitrary
+tomogram of its loop: which subtomogram numbers are handed to remove_feature; index safety of the mask lookup)."""
 import z3
 from vfw import sym
 from vfw.sym import SV, SB, ctx
@@ -321,16 +321,174 @@ class CleanByDistanceToPoints(Contract):
         return r.replay_kind("points")
 
 
-CONTRACTS = [RemoveOutOfBounds, AdaptToTrimming, CleanByDistanceToPoints]
+# ---------------------------------------------------------------------------------------------------------------------------------
+# clean_by_tomo_mask: effect of one arbitrary iteration of the loop over the tomograms: which subtomogram numbers are handed to remove_feature
+
+
+class _TomoList(frames._Generic):
+    """ioutils.tlt_load(tomo_list): the tomogram numbers; iterating (with enumerate) binds an arbitrary one"""
+
+    def __init__(self):
+        self.n = SV(z3.Int("n_tomos"))
+        self.i = SV(z3.Int("tomo_index"))
+        self.t = SV(z3.Real("tomo_value"))
+
+    def __sym_len__(self):
+        return self.n
+
+    def __generic_enumerate__(self):
+        return self
+
+    def __generic_for__(self, interp, st, env):
+        import ast
+        from vfw.models import kernels
+        if not (isinstance(st.target, ast.Tuple) and len(st.target.elts) == 2):
+            raise sym.Unsupported("tomogram loop must be `for i, t in enumerate(tomos)`")
+        a, b = st.target.elts[0].id, st.target.elts[1].id
+
+        def bind(e):
+            e.vars[a], e.vars[b] = self.i, self.t
+            return [z3.And(self.i.t >= 0, self.i.t < self.n.t)]
+        kernels.generic_body(interp, st, env, bind)
+
+
+class _MaskList:
+    """a list with one mask per tomogram (same length as the tomogram list)"""
+
+    def __init__(self, tomos, mask):
+        self.tomos, self.mask, self.asked = tomos, mask, []
+
+    def __sym_isinstance__(self, ts):
+        return list in ts
+
+    def __sym_len__(self):
+        return self.tomos.n
+
+    def __getitem__(self, k):
+        self.asked.append(k)
+        return self.mask
+
+
+class _Cleaned:
+    """Motl.load(self): the list that particles are removed from (remove_feature is used through its contract, C08)"""
+
+    def __init__(self):
+        self.removed = []
+        self.df = self
+        self.reset = False
+
+    def remove_feature(self, field, values):
+        self.removed.append((field, values))
+
+    def reset_index(self, inplace=False, drop=False, **k):
+        self.reset = bool(inplace and drop)
+
+
+class CleanByTomoMask(Contract):
+    """Motl.clean_by_tomo_mask, one arbitrary tomogram of the loop: the subtomogram numbers handed to remove_feature are exactly those of the
+    tomogram's particles whose truncated complete position lies inside the mask volume on a zero voxel; indexing the mask is safe"""
+    prop = "C09"
+    module = "cryomotl"
+    qual = "Motl.clean_by_tomo_mask"
+    configs = [{"masks": "one"}, {"masks": "list"}]
+
+    def cfg_name(self, cfg):
+        return f"masks={cfg['masks']}"
+
+    def bind(self, cx, cfg):
+        from .c07 import Group
+        from vfw.models import voxels
+        df = common.fresh_motl_frame(angles=False)
+        tomos = _TomoList()
+        ms = [SV(z3.Int(n)) for n in ("MX", "MY", "MZ")]
+        for s in ms:
+            cx.assume(s.t >= 1)
+        mask = voxels.input_array("mask", list(ms))
+        rec = {}
+
+        class Ioutils:
+            @staticmethod
+            def tlt_load(x):
+                rec["tlt_arg"] = x
+                return tomos
+
+        class CryomapStub:
+            """assumed contract of cryomap.binarize: a 0/1 array of the input's shape, 0 exactly where the input is not above the threshold"""
+            @staticmethod
+            def binarize(m, *a, **k):
+                rec.setdefault("binarized", []).append(m)
+                return mask
+
+        it = common.motl_interp(extra={"ioutils": Ioutils, "cryomap": CryomapStub})
+        me = common.motl_obj(it, df)
+
+        def mk_group(self_, f, feature_id="tomo_id", reset_index=False, **k):
+            g = Group(it, "grp_", f, feature_id)
+            g.reset = reset_index
+            rec.setdefault("groups", []).append(g)
+            return g
+
+        cleaned = []
+
+        class MotlRef:
+            @staticmethod
+            def load(x):
+                c = _Cleaned()
+                c.source = x
+                cleaned.append(c)
+                return c
+        it.contracts["Motl.get_motl_subset"] = mk_group
+        it.globals["Motl"] = MotlRef
+        masks = mask if cfg["masks"] == "one" else _MaskList(tomos, mask)
+        f = it.function("Motl.clean_by_tomo_mask").bind(me)
+
+        def thunk():
+            rec.clear(); cleaned.clear()
+            r = f("tomo_list", masks, inplace=True)
+            return dict(rec, ret=r, out=me.df, cleaned=list(cleaned), masks=masks)
+        return thunk, {"me": me, "df": df, "tomos": tomos, "mask": mask, "ms": ms}
+
+    def post(self, cx, cfg, inp, res):
+        tomos, mask, ms = inp["tomos"], inp["mask"], inp["ms"]
+        cl = [("tomogram_numbers_loaded_from_the_given_list", z3.BoolVal(res.get("tlt_arg") == "tomo_list"))]
+        ok = len(res.get("cleaned", [])) == 1 and len(res.get("groups", [])) == 1 and len(res["cleaned"][0].removed) == 1
+        cl.append(("one_removal_per_tomogram_from_a_copy_of_the_list", z3.BoolVal(bool(ok) and res["cleaned"][0].source is inp["me"])))
+        if not ok:
+            return cl
+        c, g = res["cleaned"][0], res["groups"][0]
+        field, ids = c.removed[0]
+        cl.append(("result_is_the_cleaned_list_with_index_reset", z3.BoolVal(res["out"] is c and c.reset and res["ret"] is None)))
+        cl.append(("group_is_the_tomograms_particles_with_index_reset", z3.BoolVal(g.feature == "tomo_id" and g.reset is True and g.f is tomos.t)))
+        cl.append(("mask_of_the_same_tomogram", z3.BoolVal(res["binarized"] == ([res["masks"]] if cfg["masks"] == "one" else [mask]) and (cfg["masks"] == "one" or (len(res["masks"].asked) == 1 and res["masks"].asked[0] is tomos.i)))))
+        cl.append(("removed_by_subtomogram_number", z3.BoolVal(field == "subtomo_id" and isinstance(ids, frames.GVec))))
+        if not isinstance(ids, frames.GVec):
+            return cl
+        r = g.df.row
+        pos = [zr(r[a]) + zr(r["shift_" + a]) for a in XYZ]
+        tr = [z3.If(p >= 0, z3.ToInt(p), -z3.ToInt(-p)) for p in pos]  # int(): truncation toward zero
+        inside = z3.And(*[z3.And(tr[a] >= 0, tr[a] < ms[a].t) for a in range(3)])
+        zero = mask.fn(*tr) == 0
+        cl.append(("numbers_removed_are_those_of_the_particles_inside_the_mask_volume_on_a_zero_voxel", sym.to_bool(ids.present) == z3.And(inside, zero), ()))
+        cl.append(("number_is_the_particles_own_subtomogram_number", z3.Implies(sym.to_bool(ids.present), zr(ids.val) == zr(r["subtomo_id"])), ()))
+        return cl
+
+    def replay(self, clause, model, cfg):
+        from rtc import c09 as r
+        return r.replay_kind("mask")
+
+
+CONTRACTS = [RemoveOutOfBounds, AdaptToTrimming, CleanByDistanceToPoints, CleanByTomoMask]
 LEVEL = "proof"
 EXPLANATION = ("Inside-predicates of remove_out_of_bounds_particles (both boundary types, per-tomogram dimension lookup, Python truthiness of "
                "`all(...) >= 0` encoded faithfully) and adapt_to_trimming proved on the generic row of the real AST; clean_by_distance_to_points: for an arbitrary group the "
                "appended piece is the group minus exactly the particles with a reference point of the same group within the radius of their complete position (loop over the reference points as an "
-               "arbitrary iteration, KD-tree ball-query contract, index reset); clean_by_tomo_mask is out of deductive reach (fancy indexing of the mask, in-place removal across iterations) and is "
-               "decided by the bounded stand-in only.")
+               "arbitrary iteration, KD-tree ball-query contract, index reset); clean_by_tomo_mask: in an arbitrary iteration of the loop over the tomograms the subtomogram numbers handed to remove_feature (contract in C08) are "
+               "exactly those of the tomogram's particles whose truncated complete position lies inside the mask volume on a zero voxel, the mask of the same tomogram is used, and every mask "
+               "index is within bounds (no negative wrap-around). End-to-end runs of all four filters: bounded stand-in.")
 ASSUMPTIONS = ["conventions where the statement is silent: inside means 0 <= c-b and c+b < dim with b = 0 ('center') or ceil(box/2) ('whole'); trimming keeps start <= x,y,z <= end on extraction positions; mask voxel of a particle is trunc(pos); within the radius is <=",
                "ioutils.dimensions_load returns a table with one row per tomogram (assumed; exercised by the bounded stand-in)",
-               "scipy KDTree.query_ball_point returns exactly the indices within distance <= r (bounded stand-in compares with brute force)"]
+               "scipy KDTree.query_ball_point returns exactly the indices within distance <= r (bounded stand-in compares with brute force)",
+               "cryomap.binarize returns a 0/1 array of the mask's shape; Motl.get_motl_subset / remove_feature / get_unique_values are used through their contracts (C08); numpy boolean-mask selection and np.where(mask)[0] keep the masked rows in order"]
 
 
 def run(ck):
